@@ -116,7 +116,7 @@ Section WithTable.
   Proof.
     intros [<-|[<-|[<-|[]]]]; cbn [body String.eqb Ascii.eqb Bool.eqb]; unfold res_world.
     - cbn. apply same_core_refl.
-    - cbn. destruct (str_isdigit arg).
+    - cbn. destruct (str_isascii arg && str_isdigit arg).
       + destruct (int_of_digits arg); cbn; repeat split.
       + cbn. repeat split.
     - cbn. apply same_core_refl.
@@ -186,6 +186,9 @@ Section WithTable.
     destruct (handler users t 3 h (e_arg e) (e_data e) false w0) as [[w1 o] keep] eqn:R.
     unfold res_world in H. cbn [fst] in H |- *.
     eapply same_core_trans; [exact S0|]. eapply same_core_trans; [exact H|].
+    assert (S1 : same_core w1 (if is_transfer (e_verb e) then set_sess w1 (set_rest (w_s w1) 0) else w1))
+      by (destruct (is_transfer (e_verb e)); [apply same_core_set_rest|apply same_core_refl]).
+    eapply same_core_trans; [exact S1|].
     destruct keep; [apply same_core_refl|apply same_core_end].
   Qed.
 
